@@ -16,7 +16,7 @@ import vlib
 from vlib import Inconclusive
 
 META = {
-    'technique': 'TLA+ slice-of-rows model of frame views (FrameView.tla); recorded operation sequences on real frames validated step by step by TLC with full-state comparison (view rows, len/cap, whole parent storage)',
+    'technique': 'TLA+ slice-of-rows model of frame views (FrameView.tla); recorded operation sequences on real frames validated step by step by TLC with full-state comparison (view rows, len/cap, whole parent storage); includes Copy between overlapping sub-views of one frame (memmove semantics)',
     'level_text': 'model_checking of recorded behaviour: every operation of every sequence is one action of the FrameView model; the real frame must agree with the model on the view rows, len, cap, prefix, the operation result and the entire parent storage after each step; sequences sweep all view offsets/lengths of a small storage, column type combinations (pointer-free, strings, structs, byte slices) and operation orders',
     'level_note': 'value-level only: write-barrier/aliasing safety of the unsafe copies is outside this technique; key (prefix) columns are numeric so that TLA+ can order them; Hash is checked for position-independence, not for its value',
 }
